@@ -118,6 +118,8 @@ package object
 //@ modifies nothing
 //@ ensures result0 == uf("CMPobj", int, self, other) && (result1 == nil) == uf("CMPok", bool, self, other)
 //@ ensures result1 == nil ==> oneof(result0, -1, 0, 1)
+// (an error answer orders nothing: proved of the 13 implementations as [C15,C16.cmp.err.zero])
+//@ ensures result1 != nil ==> result0 == 0
 
 //@ func (Object).IsTruthy
 //@ trusted
